@@ -331,7 +331,8 @@ func (stmt *Statement) BuildCondition(query interface{}, args ...interface{}) []
 				if where, ok := cs.Expression.(clause.Where); ok {
 					if len(where.Exprs) == 1 {
 						if orConds, ok := where.Exprs[0].(clause.OrConditions); ok {
-							where.Exprs[0] = clause.AndConditions(orConds)
+							// a new slice: the expressions belong to the statement of the handle passed in
+							where.Exprs = []clause.Expression{clause.AndConditions(orConds)}
 						}
 					}
 					conds = append(conds, clause.And(where.Exprs...))
